@@ -1,4 +1,5 @@
 import Ledger.Proofs.CtrlSpec
+import Ledger.Proofs.CtrlDefaults
 import Ledger.Proofs.CtrlExamples
 
 /-!
@@ -28,6 +29,50 @@ theorem creation_merges_defaults_below (now : Time) (accounts : Ledger.Base.Map 
   unfold upsertAccount
   simp only [hnew]
   exact ⟨_, get?_insert_self _ _ _, rfl⟩
+
+/-- `upsertTransactionAccounts` (the `UpsertAccounts` batch of a create, rows from
+    `tx.AccountsWithDefaultMetadata(schema, …)` = `accountRows`): whatever chart the
+    operation's schema carries — or none — every account that already had a row ends
+    up with the same row. Together with `creation_merges_defaults_below` (a created row
+    gets `defaults` below the explicit values): chart defaults are applied exactly when
+    this call CREATES the account. -/
+theorem tx_accounts_defaults_only_on_creation (now : Time) (schema schema' : Option Schema) (tx : Ledger.Ctrl.Tx)
+    (am : Ledger.Base.Map String Meta) (d : Db) (a : String) (x : Account) (hex : d.accounts.get? a = some x) :
+    (upsertAccounts now (accountRows schema tx am) d).accounts.get? a =
+    (upsertAccounts now (accountRows schema' tx am) d).accounts.get? a := by
+  unfold upsertAccounts accountRows
+  exact upsertAccounts_existing_ignores_defaults now _ _ (fun _ => rfl) (fun _ => rfl) _ _ _ a x hex hex
+
+/-- `saveAccountMetadata` (`saveAccMetaBody`: one `UpsertAccounts` row with NULL dates
+    and the chart defaults of the operation's schema): on an existing account the
+    schema plays no role; on a new one the row is created with the defaults below the
+    saved values. -/
+theorem save_defaults_exactly_on_creation (now : Time) (schema schema' : Option Schema) (a : String) (m : Meta) (d : Db) :
+    (∀ x, d.accounts.get? a = some x →
+      upsertAccounts now [{ address := a, metadata := m, defaults := defaultsOf schema a }] d =
+      upsertAccounts now [{ address := a, metadata := m, defaults := defaultsOf schema' a }] d) ∧
+    (d.accounts.get? a = none →
+      ∃ acc, (upsertAccounts now [{ address := a, metadata := m, defaults := defaultsOf schema a }] d).accounts.get? a = some acc ∧
+        acc.metadata = metaMerge (defaultsOf schema a) m) := by
+  constructor
+  · intro x hx
+    unfold upsertAccounts
+    simp only [List.foldl_cons, List.foldl_nil]
+    rw [defaults_only_on_creation now d.accounts { address := a, metadata := m, defaults := defaultsOf schema a }
+      (defaultsOf schema' a) x hx]
+  · intro hn
+    exact creation_merges_defaults_below now d.accounts { address := a, metadata := m, defaults := defaultsOf schema a } hn
+
+/-- The journal-level reading of the same fact: in the reference fold `specOf`
+    (`Ledger/Ctrl/Spec.lean`) `specTouch` and `specSave` consult the chart
+    (`specDefaults`) only in their "no row yet" branch; `current_meta_eq_fold` below
+    proves the tables equal that fold after every history. -/
+theorem spec_defaults_only_on_creation (schemas schemas' : List Schema) (v v' : String) (ts ins : Time)
+    (accounts : Ledger.Base.Map String AccSpec) (a : String) (m : Meta) (x : AccSpec) (hex : accounts.get? a = some x) :
+    specTouch schemas v ts ins accounts a m = specTouch schemas' v' ts ins accounts a m ∧
+    specSave schemas v ts accounts a m = specSave schemas' v' ts accounts a m := by
+  unfold specTouch specSave
+  simp only [hex, and_self]
 
 /-- A save on an existing account: the new metadata is the old one overridden by
     the saved values (later write wins), or the row is untouched when they are
@@ -69,7 +114,7 @@ theorem current_meta_eq_fold (strict : Bool) (ops : List Op) :
 
 /-- The same for one more operation on any state that agrees with its journal, under
     any injected fault. -/
-theorem current_meta_eq_fold_step (strict : Bool) (s : State) (op : Op) (f : Option Fault) (cf : Bool)
+theorem current_meta_eq_fold_step (strict : Bool) (s : State) (op : Op) (f : Faults) (cf : Bool)
     (h : SpecOk s.db) : SpecOk (stepF strict s op f cf).1.db :=
   forgeLog_spec strict op f cf s h
 
